@@ -52,6 +52,14 @@ class HashedValue(Generic[T]):
         return self.id_ == other.id_
 
 
+class NonSolution(HashedValue[T]):
+    """
+    The value that a sub-query is bound to in a false row of a comparison (or boolean mapping) it is an operand of: a value
+    of its variable that is not one of its solutions. Another use of the same sub-query under that row sees that it is
+    not, without evaluating the sub-query again.
+    """
+
+
 @dataclass
 class HashedIterable(Generic[T]):
     """
